@@ -36,8 +36,8 @@ ASSUMPTIONS = [
 REQUIRED_MONITORS = ["only_documented_tokens_change", "float_size_line", "builds_and_agrees_with_double",
                      "spelling_selects_type", "every_part_has_requested_dtype"]
 REQUIRED_BUCKETS = {"quick": ["a:float32", "a:float64", "a:longdouble", "b:fragment", "c:float32", "c:longdouble",
-                              "d:spelling", "c:dispersity-with-cutoff", "switch:single-precision-libraries-not-allowed", "system-build:float32", "system-build:float64", "system-build:longdouble", "frag:adjacent-double", "frag:string", "frag:hexfloat", "frag:suffixed",
-                              "frag:int-promotion", "frag:exponent-identifier"]}
+                              "d:spelling", "c:dispersity-with-cutoff", "c:magnetic-2d", "switch:single-precision-libraries-not-allowed", "system-build:float32", "system-build:float64", "system-build:longdouble", "frag:adjacent-double", "frag:string", "frag:hexfloat", "frag:suffixed",
+                              "frag:int-promotion", "frag:exponent-identifier", "frag:multiline-comment"]}
 REQUIRED_BUCKETS["thorough"] = REQUIRED_BUCKETS["quick"]
 
 FUNCS = set("sin cos tan asin acos atan sinh cosh tanh asinh acosh atanh atan2 erf erfc tgamma exp exp2 exp10 expm1 "
@@ -240,7 +240,13 @@ def gen_fragment(rng):
                 # the documented rewriting is textual: comments only between plain words / after ';'
                 if (re.match(ident, prev) and prev not in FUNCS and re.match(ident, t)) or prev == ";":
                     seps.append(" /* 1.0.8 double */ ")
-                text += seps[int(rng.integers(len(seps)))]
+                    if rng.random() < 0.5:
+                        # a block comment that spans lines, with code following its terminator on the same line
+                        seps.append(" /* first line 2.5\n   second line double 1e3 */ ")
+                chosen_sep = seps[int(rng.integers(len(seps)))]
+                if "second line" in chosen_sep:
+                    tags.add("frag:multiline-comment")
+                text += chosen_sep
         text += t
     for t in toks:
         c = num_class(t) if re.match(r'\.?\d', t) else None
@@ -361,6 +367,24 @@ def run_build(case, rec):
                                             "max_rel_err": core.maxrel(Jx, J64, 1e-10*sc_)},
                           key="C15/float32-disagrees/%s" % name if d == "float32" else None)
             rec.bucket("c:dispersity-with-cutoff")
+    # 2-D with a magnetised SLD: the magnetic branch of the kernel template in the requested precision
+    if i.parameters.nmagnetic > 0:
+        slds_ = [p_.name for p_ in i.parameters.call_parameters if p_.type == "sld" and p_.name in sas.active_names(i, pars)]
+        if slds_:
+            qx_, qy_ = q[:4]*0.8, q[:4]*0.6
+            mp = dict(pars, **{slds_[0] + "_M0": 2.0, slds_[0] + "_mtheta": 35.0, slds_[0] + "_mphi": 60.0,
+                               "up_frac_i": 0.3, "up_frac_f": 0.7, "up_theta": 70.0, "up_phi": 20.0})
+            for a_ in i.parameters.orientation_parameters:
+                mp[a_.name] = 25.0
+            M64 = np.asarray(direct_model.call_kernel(m64.make_kernel([qx_, qy_]), dict(mp)), float)
+            Mx = np.asarray(direct_model.call_kernel(mx.make_kernel([qx_, qy_]), dict(mp)), float)
+            scm = float(np.max(np.abs(M64 - bg))) if len(M64) else 1.0
+            okm = core.close(Mx, M64, 2e-3 if d == "float32" else 1e-4, (1e-5 if d == "float32" else 1e-6)*scm + 1e-6)
+            rec.check("builds_and_agrees_with_double", okm,
+                      None if okm else {"model": name, "dtype": d, "case": "2-D magnetic", "double": M64, "other": Mx,
+                                        "max_rel_err": core.maxrel(Mx, M64, 1e-10*scm)},
+                      key="C15/float32-disagrees/%s" % name if d == "float32" else None)
+            rec.bucket("c:magnetic-2d")
     prefix = {"float32": "sas32_", "longdouble": "sas128_"}[d]
     import os
     rec.check("library_prefix", os.path.basename(mx.dllpath).startswith(prefix),
